@@ -308,6 +308,167 @@ pub fn test_overlay(c: &OverlayCase, ctx: &mut CaseCtx) -> Result<(), String> {
 }
 
 // ------------------------------------------------------------------------------------------------
+// the configuration API on a live linter
+
+#[derive(Debug, Clone, Serialize, Deserialize, PartialEq, Eq, Hash)]
+pub enum CfgOp {
+    Set(String, bool),
+    Unset(String),
+    SetIfUnset(String, bool),
+    Clear,
+    MergeFrom(Vec<(String, Option<bool>)>),
+    FillCurated,
+    /// LintGroup::set_all_rules_to
+    SetAll(Option<bool>),
+    Lint,
+}
+
+#[derive(Debug, Clone, Serialize, Deserialize, PartialEq, Eq, Hash)]
+pub struct LiveCase {
+    pub text: String,
+    pub ops: Vec<CfgOp>,
+}
+
+/// One long-lived `LintGroup` whose public `config` is mutated through every method of the
+/// configuration API, with lints of the same text in between. Model: a map rule -> on / off /
+/// null / absent, written from the methods' documentation. After every step the switches read
+/// back as the model says, the configuration survives a JSON round trip, and linting gives what
+/// a fresh linter with the model's switches gives.
+pub fn test_live(c: &LiveCase, ctx: &mut CaseCtx) -> Result<(), String> {
+    let keys = &harvest().rule_keys;
+    let curated = LintGroupConfig::new_curated();
+    let dict = FstDictionary::curated();
+    let doc = Document::new(&c.text, &PlainEnglish, &dict);
+    let mut group = LintGroup::new_curated(dict.clone(), Dialect::American);
+    let mut model: BTreeMap<String, Option<bool>> = BTreeMap::new();
+    // new_curated starts from the curated configuration
+    for k in keys {
+        model.insert(k.clone(), Some(curated.is_rule_enabled(k)));
+    }
+    let mut lints_done = 0;
+    let mut changed_after_lint = false;
+    for (step, op) in c.ops.iter().enumerate() {
+        match op {
+            CfgOp::Set(k, v) => {
+                group.config.set_rule_enabled(k, *v);
+                model.insert(k.clone(), Some(*v));
+            }
+            CfgOp::Unset(k) => {
+                group.config.unset_rule_enabled(k);
+                model.remove(k);
+            }
+            CfgOp::SetIfUnset(k, v) => {
+                group.config.set_rule_enabled_if_unset(k, *v);
+                model.entry(k.clone()).or_insert(Some(*v));
+            }
+            CfgOp::Clear => {
+                group.config.clear();
+                for v in model.values_mut() {
+                    *v = None;
+                }
+            }
+            CfgOp::MergeFrom(entries) => {
+                let mut other = config_from(entries);
+                group.config.merge_from(&mut other);
+                for (k, v) in self::model(entries) {
+                    if v.is_some() {
+                        model.insert(k, v);
+                    }
+                }
+            }
+            CfgOp::FillCurated => {
+                group.config.fill_with_curated();
+                for k in keys {
+                    if model.get(k).copied().flatten().is_none() {
+                        model.insert(k.clone(), Some(curated.is_rule_enabled(k)));
+                    }
+                }
+            }
+            CfgOp::SetAll(v) => {
+                group.set_all_rules_to(*v);
+                for k in keys {
+                    match v {
+                        Some(b) => {
+                            model.insert(k.clone(), Some(*b));
+                        }
+                        None => {
+                            model.remove(k);
+                        }
+                    }
+                }
+            }
+            CfgOp::Lint => {}
+        }
+        if !matches!(op, CfgOp::Lint) && lints_done > 0 {
+            changed_after_lint = true;
+        }
+        // the switches read back as the model says
+        for k in keys.iter().chain(model.keys()) {
+            let want = model.get(k).copied().flatten().unwrap_or(false);
+            if group.config.is_rule_enabled(k) != want {
+                return Err(format!("step {step} ({op:?}): rule {k:?} reads {} but the operations so far make it {:?}", group.config.is_rule_enabled(k), model.get(k)));
+            }
+        }
+        // a configuration with the same switches, rebuilt from the model through JSON
+        let entries: Vec<(String, Option<bool>)> = model.iter().map(|(k, v)| (k.clone(), *v)).collect();
+        let rebuilt = config_from(&entries);
+        let json = serde_json::to_string(&group.config).map_err(|e| e.to_string())?;
+        let back: LintGroupConfig = serde_json::from_str(&json).map_err(|e| e.to_string())?;
+        if back != group.config {
+            return Err(format!("step {step} ({op:?}): the configuration changes in a JSON round trip"));
+        }
+        if matches!(op, CfgOp::Lint) || step + 1 == c.ops.len() {
+            let live = crate::core::catch(std::panic::AssertUnwindSafe(|| group.lint(&doc)));
+            let fresh = crate::core::catch(|| LintGroup::new_curated(dict.clone(), Dialect::American).with_lint_config(rebuilt.clone()).lint(&doc));
+            let (Ok(live), Ok(fresh)) = (live, fresh) else {
+                ctx.class("skipped_c01_panic");
+                return Ok(());
+            };
+            lints_done += 1;
+            if sorted_keys(&live) != sorted_keys(&fresh) {
+                let (l, f) = (sorted_keys(&live), sorted_keys(&fresh));
+                return Err(format!(
+                    "step {step}: after {:?} the long-lived linter reports {} lints on {:?}, a fresh linter with the same configuration {}; only live: {:?}; only fresh: {:?}",
+                    &c.ops[..=step].iter().filter(|o| !matches!(o, CfgOp::Lint)).collect::<Vec<_>>(),
+                    l.len(), c.text, f.len(),
+                    l.iter().filter(|x| !f.contains(x)).take(2).collect::<Vec<_>>(),
+                    f.iter().filter(|x| !l.contains(x)).take(2).collect::<Vec<_>>()
+                ));
+            }
+        }
+    }
+    ctx.class_if(changed_after_lint, "configuration_changed_between_two_lints");
+    ctx.class_if(c.ops.iter().any(|o| matches!(o, CfgOp::SetAll(Some(false)))), "all_rules_switched_off_at_once");
+    ctx.class_if(c.ops.iter().any(|o| matches!(o, CfgOp::MergeFrom(_))), "merge_from_on_a_live_configuration");
+    if changed_after_lint {
+        ctx.nontrivial(c);
+    }
+    Ok(())
+}
+
+fn live_strategy() -> BoxedStrategy<LiveCase> {
+    // rules that fire on the text are what makes a stale switch visible
+    let firing = || g::sel_str(&["ThenThan", "BoringWords", "BackInTheDay", "ModalOf", "SpellCheck", "AnA", "RepeatedWords", "ThereIs", "LongSentences", "SentenceCapitalization", "Hedging"]);
+    let key = move || prop_oneof![4 => firing(), 3 => g::rule_key(), 1 => g::sel_str(&["NoSuchRule", ""])];
+    let entries = move || proptest::collection::vec((key(), prop_oneof![2 => Just(Some(true)), 2 => Just(Some(false)), 1 => Just(None)]), 0..5);
+    let op = prop_oneof![
+        3 => (key(), any::<bool>()).prop_map(|(k, v)| CfgOp::Set(k, v)),
+        2 => key().prop_map(CfgOp::Unset),
+        1 => (key(), any::<bool>()).prop_map(|(k, v)| CfgOp::SetIfUnset(k, v)),
+        1 => Just(CfgOp::Clear),
+        3 => entries().prop_map(CfgOp::MergeFrom),
+        2 => Just(CfgOp::FillCurated),
+        2 => prop_oneof![Just(Some(false)), Just(Some(true)), Just(None)].prop_map(CfgOp::SetAll),
+        5 => Just(CfgOp::Lint),
+    ];
+    let text = prop_oneof![
+        3 => Just("He is taller then her. It was very very good back in the days, I could of gone. their is an problem and and it is kind of boring.".to_string()),
+        2 => multi_rule_text(),
+    ];
+    (text, proptest::collection::vec(op, 2..12)).prop_map(|(text, ops)| LiveCase { text, ops }).boxed()
+}
+
+// ------------------------------------------------------------------------------------------------
 // external format: harper.js linter (`set_lint_config_from_json` + `lint`)
 
 #[derive(Debug, Clone, Serialize, Deserialize, PartialEq, Eq, Hash)]
@@ -563,6 +724,11 @@ fn multi_rule_text() -> BoxedStrategy<String> {
 }
 
 pub fn run(run: &mut Run) {
+    let n = run.n(1_500, 50_000);
+    run.prop("live_linter_configuration", n, live_strategy, test_live);
+    run.require_class("live_linter_configuration", "configuration_changed_between_two_lints", (n / 3) as u64);
+    run.require_class("live_linter_configuration", "all_rules_switched_off_at_once", (n / 20) as u64);
+    run.require_class("live_linter_configuration", "merge_from_on_a_live_configuration", (n / 5) as u64);
     run.rule = "(a) additivity: documents of 1-3 harvested rule sentences / G-TEXT; S = all rules or a random subset, random 2-partition A+B: multiset(lints(S)) == lints(A)+lints(B), all-off gives nothing; a share of cases also compare with the sum over all single-rule runs and check that switching one firing rule off removes exactly its lints. Rules = distinct configuration keys. (b) overlay algebra against a map model: fill_with_curated, merge_from, clear, JSON round trip, unknown keys harmless (built through JSON incl. explicit null). (d) harper.js linter: set_lint_config_from_json + lint equals the in-process model. Non-trivial (a) = |S|>=2 and >=2 different rules fire. User configurations are 0-7 entries or a settings dump (nearly every rule pinned, 0-5 missing, 0-7 names the release does not know). In language_server_settings the quick fixes are requested at every position where this configuration or the curated one has a lint: the lints carried by the code actions must be the lints of this configuration at that position.".into();
     let n = run.n(2_000, 50_000);
     let singles_share = run.tier.pick(40u32, 25u32);
@@ -650,6 +816,10 @@ pub fn run(run: &mut Run) {
 }
 
 pub fn replay(check: &str, case: Value, _run: &mut Run) -> Result<(), String> {
+    if check == "live_linter_configuration" {
+        let c: LiveCase = serde_json::from_value(case).map_err(|e| e.to_string())?;
+        return test_live(&c, &mut CaseCtx::default());
+    }
     let mut ctx = CaseCtx::default();
     match check {
         "overlay_algebra" => {
